@@ -1,5 +1,6 @@
 SPECIFICATION Spec
 CONSTANTS
+  SkipOps = {}
   Types = {"x", "z", "sel"}
   MaxCols = 2
   MaxUid = 3
